@@ -57,7 +57,7 @@ func c18Oracle(t, stored []byte, header string) string {
 
 func runC18(ctx *Ctx) error {
 	r, res := ctx.Rng, ctx.Res
-	res.Rule = "cases: Latin-1 texts (mixed LF/CRLF/lone CR/no final newline, empty lines, line lengths 0..300000, non-ASCII characters incl. at byte offsets 994..1002 of a line) passed as UTF-8 to Message.SetBody / StringToBody; stored body and Body header vs model set_body; oracle: the property's statement on the stored bytes, on BodySize(), on the serialised message (the stored body follows the header block, the Body header is its length) and on the message read back from those bytes; and the result does not depend on what the message held before (a body set earlier; a body parsed from the wire that is not in normal form and is set again as the text Body() returns). Non-trivial: text with a line > 998 bytes or a non-ASCII character; distinct by text."
+	res.Rule = "cases: Latin-1 texts (mixed LF/CRLF/lone CR/no final newline, empty lines, line lengths 0..300000, non-ASCII characters incl. at byte offsets 994..1002 of a line) passed as UTF-8 to Message.SetBody / StringToBody; stored body and Body header vs model set_body; oracle: the property's statement on the stored bytes, on BodySize(), on the serialised message (the stored body follows the header block, the Body header is its length) and on the message read back from those bytes; the result does not change when a message composed from this one (header map copied) gets a body of its own, and it does not depend on what the message held before (a body set earlier; a body parsed from the wire that is not in normal form and is set again as the text Body() returns). Non-trivial: text with a line > 998 bytes or a non-ASCII character; distinct by text."
 	var texts [][]byte
 	alpha := []byte("abcdefghijklmnopqrstuvwxyz ABC0123456789.,\xe6\xf8\xe5\xc5\xfc\xdf\xff\x80\xa0\t")
 	line := func(n int) []byte {
@@ -180,6 +180,22 @@ func runC18(ctx *Ctx) error {
 				res.Fail(Failure{Kind: "oracle", Site: "SetBody-depends-on-previous-body", Case: map[string]interface{}{"text_hex": shortHex(t), "previous": "a body of the same stored length"}})
 			}
 			res.Count("after-previous-body")
+		}
+		if i%4 == 2 {
+			// a second message composed from this one by copying the header map (as for a reply or a
+			// forward): setting ITS body leaves this message's Body header and body alone
+			m5 := fbb.NewMessage(fbb.Private, "LA1B")
+			for k, v := range m.Header {
+				m5.Header[k] = v
+			}
+			m5.SetBody("another text, of another length: " + fmt.Sprint(i) + "\n")
+			if m.Header.Get("Body") != header || m.BodySize() != len(stored) {
+				res.Fail(Failure{Kind: "oracle", Site: "SetBody-changes-another-message", Case: map[string]interface{}{"text_hex": shortHex(t), "index": i}, Impl: fmt.Sprintf("after SetBody on a message composed from this one: Body header %s, BodySize() %d, stored %d bytes", m.Header.Get("Body"), m.BodySize(), len(stored))})
+			}
+			if b5, _ := m5.Body(); m5.BodySize() != len(b5) && isASCII(b5) {
+				res.Fail(Failure{Kind: "oracle", Site: "SetBody-BodySize", Case: map[string]interface{}{"text_hex": shortHex(t), "index": i, "message": "the composed one"}, Impl: fmt.Sprintf("BodySize() = %d, body of %d bytes", m5.BodySize(), len(b5))})
+			}
+			res.Count("composed-from-this-one")
 		}
 		if i%4 == 1 && len(t) > 0 && len(t) < 100000 {
 			m0 := fbb.NewMessage(fbb.Private, "LA1B")
